@@ -102,7 +102,8 @@ def compile_objs(kind):
         o = os.path.join(odir, "%s.%s.o" % (rel, key))
         objs[s] = o
         if not os.path.exists(o):
-            for old in glob.glob(os.path.join(odir, rel + ".*.o")):
+            olds = sorted(glob.glob(os.path.join(odir, rel + ".*.o")), key=os.path.getmtime)
+            for old in olds[:-3]:   # keep a few versions: seeds / mutants are applied and reverted all the time
                 os.remove(old)
             jobs.append([CXX] + flags + ["-c", s, "-o", o])
     if jobs:
